@@ -114,7 +114,7 @@ def parse_sort(s: str):
     if s.startswith("Py:"):
         return ("py", s[3:])
     m = {"Int": "int", "Bool": "bool", "Bytes": "bytes", "IntList": "ilist", "IntDeque": "ideque",
-         "Float": "float", "Str": "str", "None": "none", "ByteArray": "bytes"}
+         "Float": "float", "Str": "str", "None": "none", "ByteArray": "bytes", "Dir": "dir"}
     if s in m:
         return (m[s],)
     raise ValueError(f"unknown sort {s!r}")
@@ -174,4 +174,6 @@ def fresh_of_sort(sort, base: str, facts: list) -> V:
         return V("obj", fresh_name(base), sort[1])
     if k == "opaque":
         return V("opaque", z3.Const(fresh_name(base), opaque_sort(sort[1])), sort[1])
+    if k == "dir":
+        return V("dir", z3.Bool(fresh_name(base + "_is_out")))
     raise ValueError(sort)
